@@ -336,8 +336,13 @@ def stepSim (acc : Sim × Bool × List String × List Json) (so : Json × Json) 
   let (sim, agree, viols, models) := acc
   let (stp, ob) := so
   -- 1. global registration change
-  let reg := if jhas stp "reg" then insertSorted sim.reg (jstr (jget stp "reg"))
+  let reg0 := if jhas stp "reg" then insertSorted sim.reg (jstr (jget stp "reg"))
              else if jhas stp "dereg" then sim.reg.filter (· != jstr (jget stp "dereg")) else sim.reg
+  -- a multi-key transaction = one watch response with several events (a delete of an absent key yields no event)
+  let resp : List WEv := (jarr (jget stp "txn")).filterMap fun o =>
+    if jhas o "put" then some (WEv.put (jstr (jget o "put")))
+    else if reg0.contains (jstr (jget o "del")) then some (WEv.del (jstr (jget o "del"))) else none
+  let reg := if resp.isEmpty then reg0 else sortStrs (applyResp reg0 resp).1
   -- 2. the instance's own operation
   let sid := jnat (jget stp "sid")
   let op := jstr (jget stp "op")
@@ -383,8 +388,9 @@ def handle (j : Json) : Json :=
   let hasSlow := steps.any fun s => jstr (jget s "mode") == "slow"
   let hasUnsub := steps.any fun s => jstr (jget s "op") == "unsub"
   let hasClose := steps.any fun s => jstr (jget s "op") == "closewatch"
+  let hasTxn := steps.any fun s => jhas s "txn"
   verdict id (agree && steps.length == obs.length) (Json.arr models.toArray) viols.eraseDups
-    ("helium:" ++ (if hasSlow then "slow" else "ready") ++ (if hasUnsub then "+unsub" else "") ++ (if hasClose then "+watchclosed" else ""))
+    ("helium:" ++ (if hasSlow then "slow" else "ready") ++ (if hasUnsub then "+unsub" else "") ++ (if hasClose then "+watchclosed" else "") ++ (if hasTxn then "+txn" else ""))
 end HeliumO
 
 end Oracle.Misc
